@@ -1971,6 +1971,8 @@ class JoinOn(Join):
         """
         if self.item == current_table:
             self.item = new_table  # type:ignore[assignment]
+        elif isinstance(self.item, Term):
+            self.item = self.item.replace_table(current_table, new_table)
         self.criterion = self.criterion.replace_table(current_table, new_table)
 
 
@@ -2006,6 +2008,8 @@ class JoinUsing(Join):
         """
         if self.item == current_table:
             self.item = new_table  # type:ignore[assignment]
+        elif isinstance(self.item, Term):
+            self.item = self.item.replace_table(current_table, new_table)
         self.fields = [field.replace_table(current_table, new_table) for field in self.fields]
 
 
